@@ -125,7 +125,17 @@ def run(tier, seed):
         chk.add_tlc(res, f"histories of length {maxlen}")
         hs = list(res.lines("CASE"))
         if cap is not None and len(hs) > cap:
-            hs = rr.sample(hs, cap)
+            # never sampled away: "use the parts, then combine them" - a call whose arguments are sources that
+            # earlier requests of the same history have already evaluated
+            def combines(h):
+                last = h["hist"][-1]
+                if last[0] != "callsrc":
+                    return False
+                args = set(CALLSRC_ARGS[last[1]].values())
+                return any(q[0] in ("eval", "again") and q[1] in args for q in h["hist"][:-1])
+            must = [h for h in hs if combines(h)]
+            rest = [h for h in hs if not combines(h)]
+            hs = must + rr.sample(rest, max(0, cap - len(must)))
         hists += hs
 
     # fresh baselines
